@@ -165,10 +165,61 @@ def ltBytes : Bytes → Bytes → Bool
   | _ :: _, [] => false
   | a :: as, b :: bs => if a < b then true else if b < a then false else ltBytes as bs
 
+/-- lexicographic `<` on sequences of code units -/
+def ltUnits : List Nat → List Nat → Bool
+  | [], [] => false
+  | [], _ :: _ => true
+  | _ :: _, [] => false
+  | a :: as, b :: bs => if a < b then true else if b < a then false else ltUnits as bs
+
+def isCont (b : UInt8) : Bool := 0x80 ≤ b && b ≤ 0xBF
+
+/-- `utf8.DecodeRuneInString`: the code point at the head of `l` and how many further bytes belong to it; an
+ill-formed head is U+FFFD of width one (Unicode table 3-7: no overlong forms, no surrogates, nothing above U+10FFFF) -/
+def decodeHead (b0 : UInt8) (rest : Bytes) : Nat × Nat :=
+  if b0 < 0x80 then (b0.toNat, 0)
+  else if 0xC2 ≤ b0 && b0 ≤ 0xDF then
+    match rest with
+    | b1 :: _ => if isCont b1 then ((b0.toNat % 32) * 64 + b1.toNat % 64, 1) else (0xFFFD, 0)
+    | _ => (0xFFFD, 0)
+  else if 0xE0 ≤ b0 && b0 ≤ 0xEF then
+    match rest with
+    | b1 :: b2 :: _ =>
+      let lo : UInt8 := if b0 == 0xE0 then 0xA0 else 0x80
+      let hi : UInt8 := if b0 == 0xED then 0x9F else 0xBF
+      if lo ≤ b1 && b1 ≤ hi && isCont b2 then ((b0.toNat % 16) * 4096 + (b1.toNat % 64) * 64 + b2.toNat % 64, 2) else (0xFFFD, 0)
+    | _ => (0xFFFD, 0)
+  else if 0xF0 ≤ b0 && b0 ≤ 0xF4 then
+    match rest with
+    | b1 :: b2 :: b3 :: _ =>
+      let lo : UInt8 := if b0 == 0xF0 then 0x90 else 0x80
+      let hi : UInt8 := if b0 == 0xF4 then 0x8F else 0xBF
+      if lo ≤ b1 && b1 ≤ hi && isCont b2 && isCont b3 then
+        ((b0.toNat % 8) * 262144 + (b1.toNat % 64) * 4096 + (b2.toNat % 64) * 64 + b3.toNat % 64, 3)
+      else (0xFFFD, 0)
+    | _ => (0xFFFD, 0)
+  else (0xFFFD, 0)
+
+/-- the UTF-16 code units of a code point -/
+def unitsOf (cp : Nat) : List Nat :=
+  if cp < 0x10000 then [cp] else [0xD800 + (cp - 0x10000) / 1024, 0xDC00 + (cp - 0x10000) % 1024]
+
+/-- the UTF-16 code units of a name (names are UTF-8 in the library): the key the URL standard sorts by -/
+def u16key : Bytes → List Nat
+  | [] => []
+  | b0 :: rest =>
+    let (cp, extra) := decodeHead b0 rest
+    unitsOf cp ++ u16key (rest.drop extra)
+termination_by l => l.length
+decreasing_by simp [List.length_drop]; omega
+
+/-- `utf16Less(a, b)` of url/nodeurl.go: order by UTF-16 code units (the URL standard's sort order) -/
+def ltName (a b : Bytes) : Bool := ltUnits (u16key a) (u16key b)
+
 /-- insertion into a list sorted by name, after every element that is not greater (stability) -/
 def insertSorted (p : Pair) : List Pair → List Pair
   | [] => [p]
-  | q :: qs => if ltBytes p.name q.name then p :: q :: qs else q :: insertSorted p qs
+  | q :: qs => if ltName p.name q.name then p :: q :: qs else q :: insertSorted p qs
 
 /-- `sort.Stable(searchParams)`: the result of a stable sort is unique, so any stable sort is a model of it -/
 def sort (sp : Params) : Params := sp.foldl (fun acc p => insertSorted p acc) []
@@ -206,7 +257,7 @@ def setSpec : Params → Bytes → Bytes → Params
 def SortedByName : Params → Prop
   | [] => True
   | [_] => True
-  | p :: q :: rest => ltBytes q.name p.name = false ∧ SortedByName (q :: rest)
+  | p :: q :: rest => ltName q.name p.name = false ∧ SortedByName (q :: rest)
 
 /-- Go string → JS string → UTF-8: every byte that is not part of a well-formed sequence becomes U+FFFD -/
 def sanitizeUtf8 : Bytes → Bytes
